@@ -55,5 +55,6 @@ Example schema_definitions_example :
 Proof. vm_compute. reflexivity. Qed.
 Example resolver_definitions_example :
   let o := origins_of (C10.Model.print_resolvers (C10.Model.mkROpts (s "Resolvers") (s "ResolverOutput") (s "./schema.js") (s "Schema")) 0 ex_schema10) in
-  has_origin (0, 0, 5)%Z o && has_origin (1, 3, 5)%Z o && negb (has_origin (1, 6, 6)%Z o) = true.
+  has_origin (0, 0, 5)%Z o && has_origin (1, 3, 5)%Z o && has_origin (0, 1, 2)%Z o && has_origin (1, 4, 2)%Z o &&
+  negb (has_origin (1, 6, 6)%Z o) = true.
 Proof. vm_compute. reflexivity. Qed.
